@@ -19,12 +19,12 @@ def mut(name, find, replace, expect, **kw):
 UNIV = ("abstract text universe: K different texts; a symbol object is a real JanetStringHead block whose header carries the length and hash of its text, the bytes are not modelled; "
         "janet_string_equalconst replaced by its contract 'same text' (the stub asserts that callers pass the length and hash of the string looked for); "
         "the string hash (janet_string_calchash / cached header hash) and the length are ARBITRARY functions of the text (symbolic tables, all 2^32 hash values per text)")
-WF = ("precondition wf_cache: capacity a power of two >= 2, cache an exact heap block; each slot NULL, the tombstone JANET_SYMCACHE_DELETED or a symbol object; no two live entries with the same text; "
+WF = ("precondition wf_cache: capacity a power of two >= 4, cache an exact heap block; each slot NULL, the tombstone JANET_SYMCACHE_DELETED or a symbol object; no two live entries with the same text; "
       "every live entry reachable from its home slot by linear probing with wrap-around without crossing NULL (tombstones do not stop a probe); cache_count exact, cache_deleted >= number of tombstones "
       "(it is only an upper bound in the real code); 2*(cache_count+cache_deleted) <= capacity+2; at least one slot not live")
 EXITS = "abort()/exit() (findmem's 'symcache failed to get memory', out of memory) are obligations: they must be unreachable"
 S = dict(src=["symcache.c"], link=["util.c"], link_keep={"util.c": ["janet_tablen"]}, harness=["symcache_ops.c"], cbmc=CAD)
-KOF = {2: 2, 4: 4, 8: 6}                 # more texts than a cache under the load clause holds live (cap/2 + 1), + 1
+KOF = {4: 4, 8: 6}                 # more texts than a cache under the load clause holds live (cap/2 + 1), + 1
 def D(cap, k=None, *more):
     return ["-DVC_OWN_EXIT", "-DSY_CAP=%d" % cap, "-DSY_K=%d" % (k or KOF[cap])] + list(more)
 def bound(cap, k=None, extra=""):
@@ -38,46 +38,48 @@ M_STOP = mut("tombstone-stops-probe", "                    firstEmpty = janet_vm
 M_WRAP = mut("no-wrap-around", "bounds[3] = index;", "bounds[3] = 0;", "finds every live text|fatal exit|reachable from its home")
 M_KEEP = mut("move-keeps-old-slot", "                    *firstEmpty = test;\n                    janet_vm.cache[i] = JANET_SYMCACHE_DELETED;", "                    *firstEmpty = test;", "re-establishes wf_cache")
 
+# Capacity 2 is no longer a well-formed capacity (commit 9ee9625: janet_symcache_put never asks for fewer than 4 slots), so all
+# capacity-2 units (sc.findmem.cap2, sc.deinit.cap2, sc.resize.cap2.*, sc.put.cap2.*) and every resize to 2 slots are dropped.
 # ------------------------------------------------------------------ 1. findmem
-for cap in (2, 4, 8):
+for cap in (4, 8):
     unit("sc.findmem.cap%d" % cap,
          "janet_symcache_findmem on EVERY well-formed cache: success == 1 and the returned slot holds THE interned object iff the text is live; otherwise success == 0, nothing changed and the slot "
          "offered is free and reachable from the home slot (insertion keeps wf_cache); the set of interned objects and the counters are unchanged and wf_cache holds AFTER the lookup too "
          "(the move-to-first-tombstone keeps every entry reachable); no fatal exit",
          "h_findmem", tier="quick" if cap <= 4 else "thorough", timeout=300 if cap <= 4 else 600, bound=bound(cap), defines=D(cap), unwind=max(cap, KOF[cap] + 1) + 2,
          functions=["janet_symcache_findmem"], assumes=[UNIV, WF, EXITS],
-         mutants=([M_NULL, M_NOMOVE, M_STOP, M_KEEP, M_WRAP] if cap >= 4 else [M_NOMOVE, M_STOP]), **S)
+         mutants=[M_NULL, M_NOMOVE, M_STOP, M_KEEP, M_WRAP], **S)
 
 # ------------------------------------------------------------------ 3. deinit
 DEI = [mut("slot-cleared-to-null", "        *bucket = JANET_SYMCACHE_DELETED;", "        *bucket = NULL;", "re-establishes wf_cache|stays interned|became a tombstone"),
        mut("deleted-not-counted", "        janet_vm.cache_deleted++;\n", "", "re-establishes wf_cache|cache_deleted incremented"),
        mut("count-not-decremented", "        janet_vm.cache_count--;\n", "", "re-establishes wf_cache|cache_count decremented"),
        mut("slot-not-cleared", "        *bucket = JANET_SYMCACHE_DELETED;\n", "", "re-establishes wf_cache|no longer interned")]
-for cap in (2, 4, 8):
+for cap in (4, 8):
     unit("sc.deinit.cap%d" % cap,
          "janet_symbol_deinit on EVERY well-formed cache: set' = set - {sym} exactly (the entry removed is the swept object itself), a tombstone is written, cache_count - 1 and cache_deleted + 1, "
          "every other interned symbol stays interned as the identical object and reachable (wf_cache re-established); a symbol that is not interned changes nothing",
          "h_deinit", tier="quick" if cap <= 4 else "thorough", timeout=300 if cap <= 4 else 600, bound=bound(cap), defines=D(cap), unwind=max(cap, KOF[cap] + 1) + 2,
          functions=["janet_symbol_deinit", "janet_symcache_findmem"],
          assumes=[UNIV, WF, EXITS, "precondition: the swept symbol is the interned object of its text, or no live entry carries its text (every symbol block the collector sweeps was interned by janet_symbol / janet_symbol_gen)"],
-         mutants=DEI + ([M_NULL] if cap >= 4 else []), **S)
+         mutants=DEI + [M_NULL], **S)
 
 # ------------------------------------------------------------------ 2. resize under its contract
 RSZ = [mut("entry-not-stored", "            *bucket = x;\n", "", "no entry lost|stays interned"),
        mut("walks-new-capacity", "for (i = 0; i < oldCapacity; ++i) {", "for (i = 0; i < newCapacity; ++i) {", "pointer_dereference|no entry lost|stays interned"),
        mut("deleted-not-reset", "    janet_vm.cache_deleted = 0;\n    /* Add all", "    /* Add all", "cache_deleted == 0")]
-NEWMAX = {2: 4, 4: 8, 8: 8}              # capacity 8: growth to 16 not attempted within 10 min (cf. tab.rehash.cap8.to16)
-for cap in (2, 4, 8):
-    groups = [(2, 4)] + ([(8, 8)] if NEWMAX[cap] >= 8 and cap <= 4 else [])      # 8 -> 8: timeout after 600 s, not delivered
+NEWMAX = {4: 8, 8: 8}                    # capacity 8: growth to 16 not attempted within 10 min (cf. tab.rehash.cap8.to16)
+for cap in (4, 8):
+    groups = [(4, 4)] + ([(8, 8)] if cap <= 4 else [])      # 8 -> 8: timeout after 600 s, not delivered
     for lo, hi in groups:
         unit("sc.resize.cap%d.to%s" % (cap, "%d" % hi if lo == hi else "%d-%d" % (lo, hi)),
-             "janet_cache_resize under its contract, from EVERY well-formed cache and every new capacity that is a power of two > cache_count: new exact block without tombstones, the SAME set of interned objects "
+             "janet_cache_resize under its contract, from EVERY well-formed cache and every new capacity that is a power of two >= 4 and > cache_count: new exact block without tombstones, the SAME set of interned objects "
              "(identical pointers - growth keeps every entry, none duplicated), cache_count unchanged, cache_deleted == 0, texts unique and every entry reachable from its home slot; old block freed validly",
              "h_resize", tier="quick" if cap <= 4 else "thorough", timeout=300 if cap <= 4 else 600,
              bound=bound(cap, cap // 2 + 1, extra="; new capacity: the powers of two in [max(count+1,%d), %d]" % (lo, hi)),
              defines=D(cap, cap // 2 + 1, "-DSY_NEWMAX=%d" % NEWMAX[cap], "-DSY_SIZE_MIN=%d" % lo, "-DSY_SIZE_MAX=%d" % hi), unwind=max(hi, cap, KOF[cap] + 1) + 2,
              functions=["janet_cache_resize", "janet_symcache_findmem"], assumes=[UNIV, WF, EXITS, "calloc / free: CBMC's library models"],
-             mutants=RSZ if cap >= 4 else RSZ[:2], **S)
+             mutants=RSZ, **S)
 
 # ------------------------------------------------------------------ 2. put
 PUT_CLAUSE = ("janet_symcache_put (after the findmem of janet_symbol) on EVERY well-formed cache: set' = set + {x} - the new symbol is interned as the identical object, every other interned symbol stays "
@@ -86,40 +88,29 @@ P_CNT = mut("count-not-incremented", "    janet_vm.cache_count++;\n    *bucket =
 P_STORE = mut("symbol-not-stored", "    janet_vm.cache_count++;\n    *bucket = x;", "    janet_vm.cache_count++;", "re-establishes I1..I4|new symbol is interned")
 P_STALE = mut("bucket-not-refreshed-after-resize", "        bucket = janet_symcache_find(x, &status);\n    }\n    /* Add x to the cache */", "    }\n    /* Add x to the cache */", "pointer_dereference|new symbol is interned|re-establishes")
 P_LOAD = mut("load-check-ignores-tombstones", "if ((janet_vm.cache_count + janet_vm.cache_deleted) * 2 > janet_vm.cache_capacity) {", "if (janet_vm.cache_count * 2 > janet_vm.cache_capacity) {", "re-establishes I5|resized once")
-CAP2 = ("GENUINE DEFECT (C API level): janet_symcache_put checks the load BEFORE adding, so a cache of capacity 2 (reached by a resize while cache_count == 0: janet_tablen(1) == 2) is filled completely by the "
-        "second put (count 1 -> 2, no resize); the next janet_symbol of a new text then finds neither a match nor a free slot and dies in findmem's janet_assert 'symcache failed to get memory' (abort). "
-        "Obligation 'put re-establishes I5 / I6' fails for capacity 2, count 1, deleted 0. Not reachable from the janet binary (the core environment keeps thousands of symbols live, so cache_count is never 0 at a resize); "
-        "an embedder that never loads the core environment can reach it: janet_init(); intern 513 symbols, drop them, janet_collect(); then janet_csymbol(\"a\"); janet_csymbol(\"b\"); janet_csymbol(\"c\") aborts.")
-for cap in (2, 4, 8):
+P_FIX = mut("fix-9ee9625-reverted-cache-may-shrink-to-2", "        if (newcapacity < 4) newcapacity = 4;\n", "", "never shrinks below 4 slots")
+for cap in (4, 8):
     tier = "quick" if cap <= 4 else "thorough"
     to = 300 if cap <= 4 else 600
-    if cap == 2:
-        unit("sc.put.cap2.stay", PUT_CLAUSE + " - every call that does not resize", "h_put", tier="thorough", timeout=to, bound=bound(cap), defines=D(cap), unwind=6,
-             functions=["janet_symcache_put", "janet_symcache_findmem"], replace_calls=["janet_cache_resize:sy_resize_unreachable"], assumes=[UNIV, WF, EXITS],
-             mutants=[P_CNT], **({} if os.environ.get('SC_ENABLE_ALL') else {'disabled_reason': CAP2}), **S)
-        unit("sc.put.cap2.stay.count0", PUT_CLAUSE + " - capacity 2 restricted to the empty cache (the call with one entry fails, unit sc.put.cap2.stay)", "h_put", tier=tier, timeout=to,
-             bound=bound(cap, extra="; restricted to cache_count == 0"), defines=D(cap, None, "-DSY_PUT_COUNT0"), unwind=6,
-             functions=["janet_symcache_put", "janet_symcache_findmem"], replace_calls=["janet_cache_resize:sy_resize_unreachable"], assumes=[UNIV, WF, EXITS, "restricted to cache_count == 0"],
-             mutants=[P_CNT, P_STORE], **S)
-    else:
-        unit("sc.put.cap%d.stay" % cap, PUT_CLAUSE + " - every call that does not resize; resize is shown not to be reached below the load limit", "h_put", tier=tier, timeout=to, bound=bound(cap),
-             defines=D(cap), unwind=max(cap, KOF[cap] + 1) + 2, functions=["janet_symcache_put", "janet_symcache_findmem"], replace_calls=["janet_cache_resize:sy_resize_unreachable"],
-             assumes=[UNIV, WF, EXITS], mutants=[P_CNT, P_STORE], **S)
+    unit("sc.put.cap%d.stay" % cap, PUT_CLAUSE + " - every call that does not resize, up to capacity/2 + 1 entries (capacity 4: count 1 -> 2 -> 3): at least one slot stays free; resize is shown not to be reached below the load limit",
+         "h_put", tier=tier, timeout=to, bound=bound(cap),
+         defines=D(cap), unwind=max(cap, KOF[cap] + 1) + 2, functions=["janet_symcache_put", "janet_symcache_findmem"], replace_calls=["janet_cache_resize:sy_resize_unreachable"],
+         assumes=[UNIV, WF, EXITS], mutants=[P_CNT, P_STORE], **S)
     for c in range(0, cap // 2 + 2):
-        size = 1 << (2 * c + 1).bit_length()         # janet_tablen(2*c+1)
+        size = max(4, 1 << (2 * c + 1).bit_length())         # max(4, janet_tablen(2*c+1))
         if size > NEWMAX[cap] or c >= cap:
             continue
         k = max(2, c + 1)
         unit("sc.put.cap%d.grow.c%d" % (cap, c),
-             PUT_CLAUSE + " - a cache with %d entries at the load limit: resized once to capacity %d (growth keeps every entry), then the symbol is stored" % (c, size),
+             PUT_CLAUSE + " - a cache with %d entries at the load limit: resized once to capacity max(4, janet_tablen(2*%d+1)) = %d (growth keeps every entry), then the symbol is stored" % (c, c, size),
              "h_put", tier=tier, timeout=to,
              bound="capacity %d, cache_count %d, cache_deleted %d (every such well-formed cache); new capacity %d; universe of %d texts with arbitrary hash / length functions" % (cap, c, cap // 2 + 1 - c, size, k),
              defines=D(cap, k, "-DSY_NEWMAX=%d" % NEWMAX[cap], "-DSY_PUT_COUNT=%d" % c), unwind=max(size, cap, k + 1) + 2,
              functions=["janet_symcache_put", "janet_symcache_findmem"], replace_calls=["janet_cache_resize:sy_resize_contract"],
-             assumes=[UNIV, WF, EXITS, "janet_cache_resize replaced by its contract (proved of the real function by units sc.resize.*): requires I1..I4 and a power-of-two capacity > cache_count; ensures a new exact block without "
+             assumes=[UNIV, WF, EXITS, "janet_cache_resize replaced by its contract (proved of the real function by units sc.resize.*): requires I1..I4 and a power-of-two capacity >= 4 and > cache_count (the size put asks for is max(4, janet_tablen(2*count+1))); ensures a new exact block without "
                       "tombstones holding the same set of interned objects, cache_deleted == 0, cache_count unchanged, old block freed"] +
-                     (["the instance old capacity 8 -> new capacity 8 of the resize contract is ASSUMED here: unit sc.resize.cap8.to8 did not finish within 600 s (proved: old capacity 2 and 4 to every size <= 8, old capacity 8 to sizes 2 and 4)"] if cap == 8 and size == 8 else []),
-             mutants=[P_CNT, P_STALE] + ([P_LOAD] if cap // 2 + 1 - c > 0 else []), **S)
+                     (["the instance old capacity 8 -> new capacity 8 of the resize contract is ASSUMED here: unit sc.resize.cap8.to8 did not finish within 600 s (proved: old capacity 4 to sizes 4 and 8, old capacity 8 to size 4)"] if cap == 8 and size == 8 else []),
+             mutants=[P_CNT, P_STALE] + ([P_LOAD] if cap // 2 + 1 - c > 0 else []) + ([P_FIX] if c == 0 else []), **S)
 
 # ------------------------------------------------------------------ 4. janet_symbol, lookup path
 for cap in (4, 8):
